@@ -335,9 +335,26 @@ def undefined_cases(res: Result, rng: random.Random, d: Diff, fails: list, n: in
     # values that are "false" in Python (0, empty text / octets) and a second value of the same AVP
     falsy = [("299.0.64.00000000", "299.0.64.00000001"), ("258.0.64.00000000", "258.0.64.00000004"), ("25.0.64.", "25.0.64.6162"),
              ("18.0.0.", "18.0.0.6869"), ("266.0.64.00000000", "266.0.64.000028af")]
+    # AVPs whose names do not start with a letter (3GPP-IMSI, 5QI, …) or contain other characters than letters, digits and
+    # hyphens: the attribute name is the AVP name with hyphens replaced and in lower case, nothing else
+    from realcodec import TY_TAG
+    from codecdiff import entries as _entries
+    PAY = {1: "00010a000001", 2: "3f800000", 3: "3ff0000000000000", 4: "", 5: "00000001", 6: "0000000000000001", 7: "61",
+           8: "00000001", 9: "0000000000000001", 10: "61", 11: "e0000000", 0: "61"}
+    odd = []
+    for c_, v_, e_ in _entries():
+        nm_ = e_.get("name", "")
+        if nm_ and (not nm_[0].isalpha() or not nm_.replace("-", "").isalnum()):
+            ty_ = TY_TAG.get(getattr(e_.get("type"), "__name__", ""), 0)
+            odd.append(f"{c_}.{v_}.{0x80 if v_ else 0}.{PAY.get(ty_, '61')}")
+    rng.shuffle(odd)
     for i in range(n):
         k = rng.choice([1, 2, 3, 5, 8])
         avps = [rng.choice(pool) for _ in range(k)]
+        if odd and i % 3 == 1:
+            avps += [odd[(i // 3 * 2) % len(odd)], odd[(i // 3 * 2 + 1) % len(odd)]]
+            if rng.random() < 0.3:
+                avps.append(avps[-1])
         if rng.random() < 0.6:
             avps += [rng.choice(avps) for _ in range(rng.randrange(1, 3))]
         if i % 4 == 0:
